@@ -79,7 +79,9 @@ Lemma update_tree_parents_incl g tps rev old ps x :
   In x tps \/ rev = Some x \/ old = Some x.
 Proof.
   unfold update_tree_parents. destruct (opt_eqb (hd_error tps) rev).
-  - intros H; injection H as <-. intros Hx. left. exact Hx.
+  - destruct old as [o|]; [|intros H; injection H as <-; intros Hx; left; exact Hx].
+    destruct (opt_eqb (Some o) (hd_error tps)); intros H; injection H as <-; intros Hx; [left; exact Hx|].
+    apply filter_parents_incl in Hx. apply in_app_or in Hx as [Hx|[<-|[]]]; [left; exact Hx | right; right; reflexivity].
   - destruct rev as [r|]; [|discriminate]. intros H; injection H as <-. intros Hx.
     apply filter_parents_incl in Hx. destruct Hx as [<-|Hx]; [right; left; reflexivity|].
     apply in_app_or in Hx as [Hx|Hx].
@@ -94,12 +96,19 @@ Lemma update_tree_parents_hd g tps r old ps :
   update_tree_parents g tps (Some r) old = Some ps -> hd_error ps = Some r.
 Proof.
   unfold update_tree_parents. destruct (opt_eqb (hd_error tps) (Some r)) eqn:E.
-  - intros H; injection H as <-. apply opt_eqb_spec. exact E.
+  - apply opt_eqb_spec in E.
+    destruct old as [o|]; [|intros H; injection H as <-; exact E].
+    destruct (opt_eqb (Some o) (hd_error tps)); intros H; injection H as <-; [exact E|].
+    destruct tps as [|p rest]; [discriminate|]. cbn in E. injection E as ->. reflexivity.
   - intros H; injection H as <-. reflexivity.
 Qed.
 
 Lemma update_tree_parents_some g tps r old : exists ps, update_tree_parents g tps (Some r) old = Some ps.
-Proof. unfold update_tree_parents. destruct (opt_eqb (hd_error tps) (Some r)); eexists; reflexivity. Qed.
+Proof.
+  unfold update_tree_parents. destruct (opt_eqb (hd_error tps) (Some r)); [|eexists; reflexivity].
+  destruct old as [o|]; [|eexists; reflexivity].
+  destruct (opt_eqb (Some o) (hd_error tps)); eexists; reflexivity.
+Qed.
 
 (* ---- ancestor-or-equal on optional tips --------------------------------------- *)
 
@@ -421,12 +430,109 @@ Proof.
   rewrite Hps. exists ps. split; [reflexivity | eapply update_tree_parents_hd; exact Hps].
 Qed.
 
-(* unmerged local commits are pivoted out, not dropped: with an up-to-date tree
-   (no pending merges) the old local tip becomes the pending merge *)
-Theorem update_pivots_local_work s i c m o :
+(* ---- update never drops the local commits ------------------------------------------ *)
+
+(* every member of a list of present revisions is dominated by a head of the list *)
+Lemma heads_dominate g l : wf_dag g = true -> (forall y, In y l -> y < length g) ->
+  forall n x, length g - x <= n -> In x l ->
+  exists h, In h (heads g l) /\ is_ancestor g x h = true.
+Proof.
+  intros W Hl. induction n as [|n IH]; intros x Hn Hx.
+  - specialize (Hl x Hx). lia.
+  - destruct (dominated g l x) eqn:D.
+    + unfold dominated in D. apply existsb_exists in D as [k [Hk Hc]].
+      apply andb_true_iff in Hc as [H1 H2]. apply negb_true_iff in H1. apply Nat.eqb_neq in H1.
+      assert (R : reach g x k) by (apply (is_ancestor_spec g x k W); exact H2).
+      pose proof (Hl x Hx) as Lx.
+      destruct (reach_le g x k W R) as [E|[L|G]]; [congruence | | lia].
+      destruct (IH k) as [h [Hh Ha]]; [lia | exact Hk|].
+      exists h. split; [exact Hh | apply (is_ancestor_trans g x k h W H2 Ha)].
+    + exists x. split; [|apply (is_ancestor_refl g x W)].
+      apply heads_spec. split; [exact Hx|]. apply dominated_false. exact D.
+Qed.
+
+(* set_parent_trees keeps every head *)
+Lemma filter_rest_keeps hs : forall rest acc p, In p rest -> memb p hs = true ->
+  In p acc \/ In p (filter_rest hs acc rest).
+Proof.
+  induction rest as [|q rest IH]; intros acc p Hp Hm; [contradiction|]. cbn.
+  destruct Hp as [->|Hp].
+  - rewrite Hm. destruct (memb p acc) eqn:E; cbn.
+    + left. apply memb_In. exact E.
+    + right. left. reflexivity.
+  - destruct (memb q hs && negb (memb q acc)).
+    + destruct (IH (q :: acc) p Hp Hm) as [[->|H]|H].
+      * right. left. reflexivity.
+      * left. exact H.
+      * right. right. exact H.
+    + apply IH; assumption.
+Qed.
+
+Local Transparent filter_parents.
+Lemma filter_parents_keeps_heads g l h : In h (heads g l) -> In h (filter_parents g l).
+Proof.
+  intros Hh. assert (Hin : In h l) by (apply heads_spec in Hh; tauto).
+  destruct l as [|p rest]; [contradiction|]. cbn [filter_parents].
+  destruct Hin as [->|Hin]; [left; reflexivity|].
+  destruct (filter_rest_keeps (heads g (p :: rest)) rest [p] h Hin) as [[->|[]]|H].
+  - apply memb_In. exact Hh.
+  - left. reflexivity.
+  - right. exact H.
+Qed.
+Local Opaque filter_parents.
+
+(* the parent list _update_tree sets when the branch was pivoted from o to m *)
+Lemma utp_pivot g tps m o : o <> m ->
+  exists L, update_tree_parents g tps (Some m) (Some o) = Some (filter_parents g L) /\
+            In o L /\ (forall y, In y L -> In y tps \/ y = m \/ y = o).
+Proof.
+  intros Hne. assert (Hne' : (o =? m) = false) by (apply Nat.eqb_neq; exact Hne).
+  unfold update_tree_parents. destruct (opt_eqb (hd_error tps) (Some m)) eqn:E.
+  - apply opt_eqb_spec in E. rewrite E. cbn [opt_eqb]. rewrite Hne'.
+    exists (tps ++ [o]). split; [reflexivity|]. split; [apply in_or_app; right; left; reflexivity|].
+    intros y Hy. apply in_app_or in Hy as [Hy|[<-|[]]]; [left; exact Hy | right; right; reflexivity].
+  - eexists. split; [reflexivity|]. split.
+    + right. apply in_or_app. right. left. reflexivity.
+    + intros y [<-|Hy]; [right; left; reflexivity|].
+      apply in_app_or in Hy as [Hy|[<-|[]]]; [|right; right; reflexivity].
+      apply In_tl in Hy. apply filter_parents_incl in Hy. destruct Hy as [<-|Hy]; [right; left; reflexivity|].
+      left. apply In_tl. exact Hy.
+Qed.
+
+(* C23_update_keeps_local_work: whatever the tree was based on and whatever its pending
+   merges, the pivoted-out local tip stays in the ancestry of one of the tree's parents *)
+Theorem update_keeps_local_work s i c m o :
+  wf_dag (graph s) = true ->
+  (forall p, In p (tparents c) -> p < length (graph s)) -> m < length (graph s) -> o < length (graph s) ->
+  nth_error (cos s) i = Some c -> is_bound c = true ->
+  tip (mbranch s) = Some m -> tip (lbranch c) = Some o ->
+  is_ancestor (graph s) o m = false ->
+  exists s' c' p, update s i = (Done, s') /\ nth_error (cos s') i = Some c' /\
+                  lbranch c' = mbranch s /\ In p (tparents c') /\ is_ancestor (graph s) o p = true.
+Proof.
+  intros W Hps Lm Lo Hc B Hm Ho Hnot.
+  assert (Hne : o <> m).
+  { intros ->. rewrite (is_ancestor_refl (graph s) m W) in Hnot. discriminate. }
+  destruct (utp_pivot (graph s) (tparents c) m o Hne) as [L [HL [HoL Hsub]]].
+  assert (HLlt : forall y, In y L -> y < length (graph s)).
+  { intros y Hy. destruct (Hsub y Hy) as [H|[-> | ->]]; [apply Hps; exact H | exact Lm | exact Lo]. }
+  destruct (heads_dominate (graph s) L W HLlt (length (graph s)) o) as [h [Hh Ha]]; [lia | exact HoL|].
+  assert (U : update s i = (Done, apply_write (apply_write s (WLocal i (mkB (Some m) (revno (mbranch s)))))
+                                              (WTree i (filter_parents (graph s) L)))).
+  { unfold update. rewrite Hc, B, ur_overwrite, Hm. cbn [tip]. rewrite Ho. cbn [is_anc_opt]. rewrite Hnot. unfold revid in *.
+    rewrite HL. reflexivity. }
+  eexists. eexists. exists h. split; [exact U|]. cbn.
+  split; [rewrite (nth_upd_same _ _ _ _ (nth_upd_same _ _ _ _ Hc)); reflexivity|]. cbn.
+  split; [rewrite <- Hm; apply branch_eta|].
+  split; [apply filter_parents_keeps_heads; exact Hh | exact Ha].
+Qed.
+
+(* without pending merges, and whatever the tree was based on (up to date, or left
+   behind its branch by an interrupted commit), the parents are exactly [m; o] *)
+Theorem update_pivots_exact s i c m o b :
   wf_dag (graph s) = true ->
   nth_error (cos s) i = Some c -> is_bound c = true ->
-  tip (mbranch s) = Some m -> tip (lbranch c) = Some o -> tparents c = [o] ->
+  tip (mbranch s) = Some m -> tip (lbranch c) = Some o -> tparents c = [b] ->
   is_ancestor (graph s) o m = false ->
   exists s' c', update s i = (Done, s') /\ nth_error (cos s') i = Some c' /\
                 lbranch c' = mbranch s /\ tparents c' = [m; o].
@@ -435,35 +541,26 @@ Proof.
   assert (Hne : o <> m).
   { intros ->. rewrite (is_ancestor_refl (graph s) m W) in Hnot. discriminate. }
   assert (Hne' : (o =? m) = false) by (apply Nat.eqb_neq; exact Hne).
-  unfold update. rewrite Hc, B, ur_overwrite, Hm. cbn [tip]. rewrite Ho. cbn [is_anc_opt]. rewrite Hnot.
-  unfold update_tree_parents. rewrite Hp. cbn [hd_error opt_eqb tl]. rewrite Hne'.
-  Local Transparent filter_parents.
-  cbn [filter_parents filter_rest tl app opt_list].
   assert (Hh : memb o (heads (graph s) [m; o]) = true).
   { apply memb_In. apply heads_spec. split; [right; left; reflexivity|].
     intros k' [<-|[<-|[]]] Hk; [exact Hnot | contradiction Hk; reflexivity]. }
-  rewrite Hh. cbn [memb existsb]. rewrite Hne'. cbn [orb negb andb].
+  assert (T : update_tree_parents (graph s) [b] (Some m) (Some o) = Some [m; o]).
+  { unfold update_tree_parents. cbn [hd_error opt_eqb tl].
+    Local Transparent filter_parents.
+    destruct (b =? m) eqn:Eb.
+    - apply Nat.eqb_eq in Eb. subst b. rewrite Hne'.
+      cbn [app filter_parents filter_rest]. rewrite Hh. cbn [memb existsb]. rewrite Hne'. reflexivity.
+    - cbn [filter_parents filter_rest tl app opt_list]. rewrite Hh. cbn [memb existsb]. rewrite Hne'. reflexivity. }
+  Local Opaque filter_parents.
+  unfold update. rewrite Hc, B, ur_overwrite, Hm. cbn [tip]. rewrite Ho. cbn [is_anc_opt]. rewrite Hnot, Hp, T.
   eexists. eexists. split; [reflexivity|]. cbn.
   split; [rewrite (nth_upd_same _ _ _ _ (nth_upd_same _ _ _ _ Hc)); reflexivity|]. cbn.
   split; [rewrite <- Hm; apply branch_eta | reflexivity].
 Qed.
-Local Opaque filter_parents.
 
-(* ... but when the tree was left behind its branch (an interrupted commit wrote the
-   branch tip and not the tree), the old tip is not recorded anywhere *)
+(* regression: the state an interrupted --local commit leaves (branch tip written,
+   tree not); before the repair of _update_tree the old tip 1 was dropped *)
 Definition stale_tree_witness : sys := run (init [false; true; false] true) [Commit 1 true (Some 1)].
-
-Theorem update_keeps_local_work_refuted :
-  exists s c s' c',
-    s = stale_tree_witness /\ nth_error (cos s) 1 = Some c /\ is_bound c = true /\
-    tip (lbranch c) = Some 1 /\ is_anc_opt (graph s) (Some 1) (tip (mbranch s)) = false /\
-    update s 1 = (Done, s') /\ nth_error (cos s') 1 = Some c' /\
-    tip (lbranch c') = Some 0 /\ tparents c' = [0].
-Proof.
-  eexists. eexists. eexists. eexists.
-  split; [reflexivity|]. split; [reflexivity|]. split; [reflexivity|]. split; [reflexivity|].
-  split; [reflexivity|]. split; [reflexivity|]. split; [reflexivity|]. split; reflexivity.
-Qed.
 
 (* the refutation of the unguarded statement: a --local commit in a checkout of
    an empty master, then update: the local branch stays ahead *)
@@ -1009,4 +1106,16 @@ Proof.
   intros N s Hc Hh.
   destruct (never_ahead ops (init kinds root) (good_init kinds root) (behind_init kinds root) N) as [_ B].
   unfold behind in B. rewrite Forall_forall in B. destruct (B c Hc Hh) as [_ L]. exact L.
+Qed.
+
+(* in every reachable state (the bounds come from [good]) *)
+Corollary update_keeps_local_work_good s i c m o :
+  good s -> nth_error (cos s) i = Some c -> is_bound c = true ->
+  tip (mbranch s) = Some m -> tip (lbranch c) = Some o ->
+  is_ancestor (graph s) o m = false ->
+  exists s' c' p, update s i = (Done, s') /\ nth_error (cos s') i = Some c' /\
+                  lbranch c' = mbranch s /\ In p (tparents c') /\ is_ancestor (graph s) o p = true.
+Proof.
+  intros [W [_ [M F]]] Hc B Hm Ho Hnot. destruct (Forall_nth _ _ _ _ F Hc) as [Hl Hp].
+  apply (update_keeps_local_work s i c m o); try assumption; [apply M; exact Hm | apply Hl; exact Ho].
 Qed.
